@@ -161,8 +161,14 @@ func registerOverrides(e *Engine) {
 		return in.mkInt(in.param(in.str(a[0]), int(asInt(a[1]))))
 	})
 	e.reg(zz+"Assume", func(in *interp, fr *frame, a []value) value { in.r.assume(term(a[0])); return nil })
-	e.reg(zz+"Assert", func(in *interp, fr *frame, a []value) value { in.r.assert(term(a[0]), in.str(a[1]), fr.caller); return nil })
-	e.reg(zz+"Fail", func(in *interp, fr *frame, a []value) value { in.r.fail("assert", in.str(a[0]), "", fr.caller); return nil })
+	e.reg(zz+"Assert", func(in *interp, fr *frame, a []value) value {
+		in.r.assert(term(a[0]), in.str(a[1]), fr.caller)
+		return nil
+	})
+	e.reg(zz+"Fail", func(in *interp, fr *frame, a []value) value {
+		in.r.fail("assert", in.str(a[0]), "", fr.caller)
+		return nil
+	})
 	e.reg(zz+"Cover", func(in *interp, fr *frame, a []value) value { in.r.cover(in.str(a[0])); return nil })
 	e.reg(zz+"And", func(in *interp, fr *frame, a []value) value { return in.ctx.And(term(a[0]), term(a[1])) })
 	e.reg(zz+"Or", func(in *interp, fr *frame, a []value) value { return in.ctx.Or(term(a[0]), term(a[1])) })
@@ -507,7 +513,9 @@ func registerOverrides(e *Engine) {
 			cur = o.cause.(iface)
 		}
 	})
-	is := func(in *interp, fr *frame, a []value) value { return in.ctx.Bool(in.errorsIs(fr, a[0].(iface), a[1].(iface))) }
+	is := func(in *interp, fr *frame, a []value) value {
+		return in.ctx.Bool(in.errorsIs(fr, a[0].(iface), a[1].(iface)))
+	}
 	e.reg("errors.Is", is)
 	e.reg("github.com/pkg/errors.Is", is)
 	e.reg("errors.Unwrap", func(in *interp, fr *frame, a []value) value { return in.unwrap(fr, a[0].(iface)) })
